@@ -223,6 +223,9 @@ class Interp(object):
             st.unknown += 1
         if TRACE:
             sys.stderr.write("[psx] query #%d depth=%d pos=%d %s %.3fs\n" % (st.solver_calls, self.depth, self.pos, r, dt))
+            if dt > 2:
+                import traceback
+                sys.stderr.write("      slow: %s\n%s\n" % (" ".join(str(extra[0]).split())[:300] if extra else "", "".join(traceback.format_stack(limit=14)[:-1])[-2500:]))
         return r, m
 
     def holds(self, t):
